@@ -1298,7 +1298,7 @@ func (e *Enc) candTerm(c candidate, v Val) string {
 // candidateInvariants proposes, assumes and checks (initiation here, preservation at the back edges) simple
 // invariants: integer phis stay non-negative, string phis stay non-empty.
 func (e *Enc) candidateInvariants(li *loopInfo, phiIn map[ssa.Value]Val, st *State) {
-	if e.M != ModeInt {
+	if e.M != ModeInt || (e.Ct != nil && e.Ct.NoAuto) {
 		return
 	}
 	b := li.head
